@@ -45,6 +45,7 @@ func c17Scenarios() []c17Scenario {
 		{Name: "encode-and-lookup-shared-document", Threads: []c17Op{{Kind: "Marshal", Variant: 3}, {Kind: "Lookup", Variant: 3}}},
 		{Name: "resolve-vs-expand", Threads: []c17Op{{Kind: "ResolveRefWithBase", Variant: 1, Elem: "sib.json#/definitions/N1"}, {Kind: "ExpandSpec", Variant: 1}}},
 		{Name: "three-threads", Threads: []c17Op{{Kind: "ExpandSpec", Variant: 2}, {Kind: "ResolveRefWithBase", Variant: 1, Elem: "#/definitions/N0"}, {Kind: "Marshal", Variant: 3}}},
+		{Name: "expand-into-built-in-meta-schemas", Threads: []c17Op{{Kind: "MetaExpand2", Variant: 1}, {Kind: "MetaExpand2", Variant: 2}}},
 		{Name: "first-calls-race-on-lazy-init", Fresh: true, Threads: []c17Op{{Kind: "MetaExpand"}, {Kind: "ExpandSpec", Variant: 2}}},
 	}
 }
@@ -71,13 +72,19 @@ func c17Body(op c17Op, sh *c17Shared) func() interface{} {
 			return fmt.Sprintf("err=%v %x", err, sha(bb))
 		case "Lookup":
 			var out []string
-			for _, p := range []string{"/definitions/N0/items", "/paths/~1p/get/responses/200/schema", "/definitions/N1/title", "/parameters/P/name"} {
+			for _, p := range []string{"/definitions/N0/items", "/paths/~1p/get/responses/200/schema", "/definitions/N1/title", "/parameters/P/name", "/plain-key", "/definitions/N0/plain", "/x-ext"} {
 				ptr, _ := jsonpointer.New(p)
 				v, _, err := ptr.Get(sh.doc)
 				bb, _ := json.Marshal(v)
 				out = append(out, fmt.Sprintf("%s=%s/%v", p, bb, err))
 			}
 			return strings.Join(out, ";")
+		case "MetaExpand2":
+			var s spec.Schema
+			json.Unmarshal([]byte(fmt.Sprintf(`{"title":"t%d","properties":{"a":{"$ref":"http://json-schema.org/draft-04/schema#/definitions/positiveIntegerDefault0"},"b":{"$ref":"http://json-schema.org/draft-04/schema#/properties/items"},"c":{"$ref":"http://swagger.io/v2/schema.json#/definitions/xml"}}}`, op.Variant)), &s)
+			err := spec.ExpandSchema(&s, nil, nil)
+			bb, _ := json.Marshal(s)
+			return fmt.Sprintf("err=%v %x len=%d", err, sha(bb), len(bb))
 		case "MetaExpand":
 			var s spec.Schema
 			json.Unmarshal([]byte(`{"$ref":"http://json-schema.org/draft-04/schema#/properties/maxLength"}`), &s)
@@ -115,6 +122,13 @@ func c17Setup(sc c17Scenario) *c17Shared {
 		if (op.Kind == "Marshal" || op.Kind == "Lookup") && sh.doc == nil {
 			sh.doc = new(spec.Swagger)
 			json.Unmarshal(c16Universe(op.Variant).Docs[docURLs[0]], sh.doc)
+			// a document as a program builds it: extension maps may hold keys without the x- prefix
+			sh.doc.AddExtension("plain-key", "v")
+			sh.doc.AddExtension("x-ext", "w")
+			if d, ok := sh.doc.Definitions["N0"]; ok {
+				d.AddExtension("plain", 1.0)
+				sh.doc.Definitions["N0"] = d
+			}
 		}
 	}
 	return sh
